@@ -34,6 +34,7 @@ H_ASSUME = [
 ]
 
 PROPS = {}
+NOT_APPLICABLE = {}
 
 
 def split(src, prefix, only, nsub, variants, quick_variants=None, **kw):
@@ -130,3 +131,22 @@ PROPS['C03'] = {
     'bounds': {'quick': 'list+VMutex bound 2; SpinLock and dispatcher (std::map / std::unordered_map through the Map policy) bound 1; collision-rich subset of the 2x2 and 3x1 configurations', 'thorough': 'bound 3 (list+VMutex) / 2 (others); all configurations'},
     'deadline': {'quick': 170, 'thorough': 1700},
 }
+
+PROPS['C05'] = {
+    'title': 'EventQueue consumes every queued event exactly once, in FIFO order',
+    'level': 'model_checking',
+    'parts': split('harness/queue.cpp', 'C05/', 5, 3, ['g17'], ['g17O0']),
+    'rule': 'BFS over histories of {enqueue (both argument-passing forms, 2 keys), process, processOne, processIf x4 predicates, processUntil x4 predicates, peekEvent, takeEvent, takeEvent+dispatch(QueuedEvent), clearEvents, emptyQueue+waitFor(0), appendListener, removeListener slot}; listeners and predicates take PROG choices (enqueue, listener changes, emptyQueue, peek, nested process/processOne/clearEvents/takeEvent); lock-step model predicts the next callback (listener with event, or predicate) at every moment; state key includes free-list length and both counters',
+    'assumptions': H_ASSUME,
+    'bounds': {'quick': 'K=3 pending, <=2 listeners, flat depth 5-6, nested budget 1 depth 4', 'thorough': 'flat to fixpoint or depth 30, nested budget 2 depth 5'},
+}
+PROPS['C13'] = {
+    'title': 'OrderedQueueList processes events in comparator order, stably, exactly once',
+    'level': 'model_checking',
+    'parts': split('harness/queue.cpp', 'C13/', 13, 3, ['g17'], ['g17O0']),
+    'rule': 'the C05 search with QueueList = OrderedQueueList and comparators ascending key / descending key / key mod 2 (large equivalence classes) over keys {1,2,3} with duplicates; the model keeps its deque stably sorted (declined events re-enter ahead of equal newer ones)',
+    'assumptions': H_ASSUME,
+    'bounds': {'quick': 'K=3 (4 for mod-2) pending, flat depth 5, nested budget 1 depth 4', 'thorough': 'flat to fixpoint or depth 30, nested budget 2 depth 5'},
+}
+PROPS['C08']['parts'] += split('harness/queue.cpp', 'C08/', 8, 2, ['g17'])
+PROPS['C11']['parts'] += [{'src': 'harness/queue.cpp', 'prefix': 'C11/', 'variants': ['g17'], 'defs': ['VERIF_ONLY=11', 'VERIF_SUB=0']}]
